@@ -32,7 +32,7 @@ NONLIN = "nonlin"
 _LIN_ALL_DATA = [
     "add", "add_any", "sub", "neg", "concatenate", "pad", "slice", "squeeze", "reshape", "broadcast_in_dim",
     "transpose", "rev", "reduce_sum", "cumsum", "fft", "copy", "copy_p", "expand_dims", "complex", "split",
-    "zeros_like", "psum", "all_gather",
+    "zeros_like", "psum", "all_gather", "device_put",
 ]
 # linear in the data operands once the listed operands are fixed (they must be input-independent)
 _LIN_WITH_PARAMS = {
@@ -80,6 +80,7 @@ _CONTROL = ["while", "scan", "cond", "switch"]
 PRIM_NAMES = (
     ["lit"] + _LIN_ALL_DATA + list(_LIN_WITH_PARAMS) + _BILINEAR + _DIV + _REAL + _CONJ
     + ["convert_element_type", "convert_element_type[c->r]", "fft[irfft]"] + _NONLIN
+    + ["gather[fill]", "scan[xs-index]", "scan[ys-stack]", "pmap[in-slice]", "pmap[out-stack]"]
 )
 _PRIM_INDEX = {}
 for _n in PRIM_NAMES:
@@ -116,6 +117,8 @@ def classify(eqn, dep_mask):
     allpos = list(range(n))
     if name in _CONTROL:
         raise NotTranslatable(name, "control-flow primitive on an input-dependent value")
+    if name == "axis_index":
+        raise NotTranslatable(name, "axis_index outside a single-device pmap")
     if name == "convert_element_type":
         src = eqn.invars[0].aval.dtype
         dst = eqn.params["new_dtype"]
@@ -162,6 +165,8 @@ class Prog:
         self.outs = []
         self.folded = 0  # number of input-independent equations evaluated numerically
         self.inlined = 0
+        self.unrolled = 0  # control-flow primitives (scan / while / cond) unrolled or resolved on constants
+        self.exec = None  # with translate(..., keep=True): per equation ("lit", value) | ("inst", instance, output number)
         self.prims = {}  # histogram of emitted primitive names
 
     def emit(self, cls, prim, params, args):
@@ -198,17 +203,150 @@ def _is_zero(val) -> bool:
         return False
 
 
-def translate(closed) -> Prog:
+def _all_finite(val) -> bool:
+    try:
+        a = np.asarray(val)
+        if a.dtype.kind not in "fc":
+            return a.dtype.kind in "iub"
+        return bool(np.all(np.isfinite(a)))
+    except Exception:  # noqa: BLE001
+        return False
+
+
+def _kind(dt) -> str:
+    try:
+        return np.dtype(dt).kind
+    except Exception:  # noqa: BLE001  (extended dtypes: PRNG keys)
+        return "?"
+
+
+MAX_UNROLL_ITERS = 1000  # while loops: iterations evaluated before giving up
+MAX_PROG_EQNS = 6000  # emitted equations (unrolled control flow included) before giving up
+
+# pseudo-primitives emitted when `scan` is unrolled (per-iteration slice of a scanned operand, stacking of the
+# per-iteration results): both jointly linear; validated like every other table entry (harness/jaxpr_table.py)
+SCAN_INDEX = "scan[xs-index]"
+SCAN_STACK = "scan[ys-stack]"
+# single-device pmap boundaries: the mapped axis (size 1) is removed on entry and restored on exit
+PMAP_IN = "pmap[in-slice]"
+PMAP_OUT = "pmap[out-stack]"
+
+
+def translate(closed, record=None, keep=False) -> Prog:
+    """jaxpr -> IR.  `record` (a list) receives one *instance* per classified equation: the primitive with its static
+    parameters, operand shapes/dtypes, class, parameter/data positions and the constant values of the parameter
+    operands - what harness/jaxpr_table.py validates numerically.  `keep=True` additionally attaches to every emitted
+    equation what is needed to execute it (`prog.exec`), so that the translated program can be run and compared with
+    the function it was translated from (`jaxpr_table.ir_eval`: fidelity of inlining, folding, unrolling)."""
     import jax
+    import jax.numpy as jnp
     from jax._src import core as jcore
 
     jaxpr = closed.jaxpr
     prog = Prog(len(jaxpr.invars))
+    pmap_depth = [0]
+    if keep:
+        prog.exec = []
+        if record is None:
+            record = []
 
     def lit_id(c: _Const) -> int:
         if c.vid is None:
             c.vid = prog.emit("lit1" if _is_zero(c.val) else "lit0", "lit", [], [])
+            if keep:
+                prog.exec.append(("lit", c.val))
         return c.vid
+
+    def vid(a):
+        return a.vid if isinstance(a, _Dep) else lit_id(a)
+
+    def emit(cls, pname, pids, dids, inst=None, k=0):
+        if len(prog.eqns) >= MAX_PROG_EQNS:
+            raise NotTranslatable(pname, f"program longer than {MAX_PROG_EQNS} equations after unrolling")
+        if keep:
+            prog.exec.append(("inst", inst, k))
+        return prog.emit(cls, pname, pids, dids)
+
+    def pseudo(pname, fn, data, avals, nout=1, tag=""):
+        """emit a jointly linear pseudo-primitive (scan unrolling) over `data` (list of _Const/_Dep)"""
+        inst = {"prim": None, "fn": fn, "name": pname, "params": {}, "static": pname + ":" + str(tag), "cls": LINALL, "ppos": [], "dpos": list(range(len(data))),
+                "avals": avals, "pvals": {}, "nout": nout, "baked": {}, "offset": False}
+        if record is not None:
+            record.append(inst)
+        ids = [vid(a) for a in data]  # (literals first: they are equations of their own)
+        return _Dep(emit(LINALL, pname, [], ids, inst, 0))
+
+    def aval_of(v):
+        return (tuple(v.aval.shape), v.aval.dtype)
+
+    def sub_of(eqn, name):
+        key = _CALL_LIKE[name]
+        sub = eqn.params.get(key) if key else None
+        if sub is None:
+            for k in ("jaxpr", "call_jaxpr", "fun_jaxpr"):
+                if k in eqn.params:
+                    sub = eqn.params[k]
+                    break
+        if sub is None:
+            raise NotTranslatable(name, "call-like primitive without a sub-jaxpr")
+        if hasattr(sub, "jaxpr"):
+            return sub.jaxpr, [_Const(c) for c in sub.consts]
+        return sub, []
+
+    def closed_parts(cj):
+        return (cj.jaxpr, [_Const(c) for c in cj.consts]) if hasattr(cj, "jaxpr") else (cj, [])
+
+    def do_scan(eqn, vals):
+        p = eqn.params
+        n, nc, ncar, rev = int(p["length"]), int(p["num_consts"]), int(p["num_carry"]), bool(p["reverse"])
+        sj, sc = closed_parts(p["jaxpr"])
+        consts, carry, xs = vals[:nc], list(vals[nc:nc + ncar]), vals[nc + ncar:]
+        xs_avals = [aval_of(v) for v in eqn.invars[nc + ncar:]]
+        nys = len(eqn.outvars) - ncar
+        ys = [[None] * n for _ in range(nys)]
+        for i in (range(n - 1, -1, -1) if rev else range(n)):
+            xi = []
+            for a, av in zip(xs, xs_avals):
+                if isinstance(a, _Const):
+                    xi.append(_Const(np.asarray(a.val)[i]))
+                else:
+                    xi.append(pseudo(SCAN_INDEX, (lambda x, _i=i: x[_i]), [a], [av], tag=i))
+            outs = run(sj, sc, list(consts) + carry + xi)
+            carry = list(outs[:ncar])
+            for k in range(nys):
+                ys[k][i] = outs[ncar + k]
+        res = list(carry)
+        for k in range(nys):
+            ov = eqn.outvars[ncar + k]
+            shp, dt = aval_of(ov)
+            if n == 0 or all(isinstance(y, _Const) for y in ys[k]):
+                res.append(_Const(np.stack([np.asarray(y.val) for y in ys[k]]).astype(dt) if n else np.zeros(shp, dt)))
+            else:
+                res.append(pseudo(SCAN_STACK, (lambda *t: jnp.stack(t)), ys[k], [(tuple(shp[1:]), dt)] * n, tag=n))
+        return res
+
+    def do_while(eqn, vals):
+        p = eqn.params
+        cn, bn = int(p["cond_nconsts"]), int(p["body_nconsts"])
+        cj, cc = closed_parts(p["cond_jaxpr"])
+        bj, bc = closed_parts(p["body_jaxpr"])
+        cconst, bconst, carry = vals[:cn], vals[cn:cn + bn], list(vals[cn + bn:])
+        for _ in range(MAX_UNROLL_ITERS):
+            (c,) = run(cj, cc, list(cconst) + carry)
+            if not isinstance(c, _Const):
+                raise NotTranslatable("while", "the loop condition depends on the input")
+            if not bool(np.all(np.asarray(c.val))):
+                return carry
+            carry = list(run(bj, bc, list(bconst) + carry))
+        raise NotTranslatable("while", f"more than {MAX_UNROLL_ITERS} iterations")
+
+    def do_cond(eqn, vals):
+        if not isinstance(vals[0], _Const):
+            raise NotTranslatable("cond", "the branch index depends on the input")
+        br = eqn.params["branches"]
+        k = min(max(int(np.asarray(vals[0].val)), 0), len(br) - 1)
+        bj, bc = closed_parts(br[k])
+        return run(bj, bc, vals[1:])
 
     def run(jaxpr, consts, ins):
         env = {}
@@ -218,6 +356,8 @@ def translate(closed) -> Prog:
                 return _Const(v.val)
             return env[v]
 
+        if len(jaxpr.constvars) != len(consts) or len(jaxpr.invars) != len(ins):
+            raise NotTranslatable("call", "operand count does not match the sub-jaxpr")
         for v, c in zip(jaxpr.constvars, consts):
             env[v] = c
         for v, a in zip(jaxpr.invars, ins):
@@ -226,27 +366,59 @@ def translate(closed) -> Prog:
             name = eqn.primitive.name
             vals = [read(v) for v in eqn.invars]
             dep = [isinstance(a, _Dep) for a in vals]
+            if name == "axis_index" and pmap_depth[0] > 0:
+                env[eqn.outvars[0]] = _Const(np.zeros((), eqn.outvars[0].aval.dtype))  # the only device of a size-1 pmap
+                continue
             if name in _CALL_LIKE and any(dep):
-                key = _CALL_LIKE[name]
-                sub = eqn.params.get(key) if key else None
-                if sub is None:
-                    for k in ("jaxpr", "call_jaxpr", "fun_jaxpr"):
-                        if k in eqn.params:
-                            sub = eqn.params[k]
-                            break
-                if sub is None:
-                    raise NotTranslatable(name, "call-like primitive without a sub-jaxpr")
-                if hasattr(sub, "jaxpr"):
-                    sj, sc = sub.jaxpr, [_Const(c) for c in sub.consts]
-                else:
-                    sj, sc = sub, []
-                if name == "custom_vjp_call_jaxpr" or name == "custom_vjp_call":
-                    pass
-                nconst = len(vals) - len(sj.invars)
-                if nconst < 0:
+                sj, sc = sub_of(eqn, name)
+                if len(vals) != len(sj.invars):
                     raise NotTranslatable(name, "operand count does not match the sub-jaxpr")
                 prog.inlined += 1
-                outs = run(sj, sc, vals[nconst:] if nconst else vals)
+                if name == "xla_pmap":
+                    # the body runs on one slice per device; only a single-device map is inlined (then the slice is the
+                    # whole operand with the mapped axis removed; input-independent operands are sliced numerically)
+                    if int(eqn.params.get("axis_size", 0)) != 1:
+                        raise NotTranslatable(name, "pmap over more than one device")
+                    ia = eqn.params.get("in_axes", (None,) * len(vals))
+                    sliced = []
+                    for a, ax, v in zip(vals, ia, eqn.invars):
+                        if ax is None:
+                            sliced.append(a)
+                        elif isinstance(a, _Const):
+                            sliced.append(_Const(np.take(np.asarray(a.val), 0, axis=ax)))
+                        else:
+                            sliced.append(pseudo(PMAP_IN, (lambda x, _ax=ax: jnp.take(x, 0, axis=_ax)), [a], [aval_of(v)], tag=ax))
+                    vals = sliced
+                    pmap_depth[0] += 1
+                    try:
+                        outs = run(sj, sc, vals)
+                    finally:
+                        pmap_depth[0] -= 1
+                    # a constant result gets its mapped axis back
+                    oa = eqn.params.get("out_axes", (0,) * len(outs))
+                    stacked = []
+                    for o, ax, v in zip(outs, oa, eqn.outvars):
+                        if ax is None:
+                            stacked.append(o)
+                        elif isinstance(o, _Const):
+                            stacked.append(_Const(np.expand_dims(np.asarray(o.val), ax)))
+                        else:
+                            shp, dt = aval_of(v)
+                            stacked.append(pseudo(PMAP_OUT, (lambda x, _ax=ax: jnp.expand_dims(x, _ax)), [o], [(tuple(d for i, d in enumerate(shp) if i != ax), dt)], tag=ax))
+                    outs = stacked
+                else:
+                    outs = run(sj, sc, vals)
+                for v, o in zip(eqn.outvars, outs):
+                    env[v] = o
+                continue
+            if name in _CONTROL and any(dep):
+                if name == "scan":
+                    outs = do_scan(eqn, vals)
+                elif name == "while":
+                    outs = do_while(eqn, vals)
+                else:
+                    outs = do_cond(eqn, vals)
+                prog.unrolled += 1
                 for v, o in zip(eqn.outvars, outs):
                     env[v] = o
                 continue
@@ -261,19 +433,45 @@ def translate(closed) -> Prog:
                     env[v] = _Const(r)
                 continue
             cls, ppos, dpos, pname = classify(eqn, dep)
-            pids = []
-            for i in ppos:
-                a = vals[i]
-                pids.append(a.vid if isinstance(a, _Dep) else lit_id(a))
-            dids = []
-            for i in dpos:
-                a = vals[i]
-                dids.append(a.vid if isinstance(a, _Dep) else lit_id(a))
+            extra = []  # additional data operands (affine offset of a primitive instance)
+            baked = {}  # operands fixed at their constant value and made part of the instance
+            in_kinds = {_kind(v.aval.dtype) for v, d in zip(eqn.invars, dep) if d}
+            out_kinds = {_kind(v.aval.dtype) for v in eqn.outvars}
+            if cls in (LINALL, BIL, DIV, CONJ) and "c" in in_kinds and "c" not in out_kinds:
+                cls, pname = NONLIN, pname + "[complex->real outside realPart]"
+            if name in ("div", "rem") and (in_kinds & set("iub")):
+                cls, pname = NONLIN, name + "[integer]"
+            if cls == BIL and not all(_all_finite(a.val) for a in vals if isinstance(a, _Const)):
+                cls, pname = NONLIN, name + "[non-finite constant factor]"  # inf * 0 = NaN: A(0) != 0
+            if cls == DIV and isinstance(vals[1], _Const):
+                d = np.asarray(vals[1].val)
+                if np.any(d == 0) or np.any(np.isnan(d)):
+                    cls, pname = NONLIN, name + "[zero or NaN constant denominator]"  # 0 / 0 = NaN: A(0) != 0
+            if name == "gather" and "FILL" in str(eqn.params.get("mode", "")) and not _is_zero(eqn.params.get("fill_value") if eqn.params.get("fill_value") is not None else np.nan):
+                # out-of-bounds slices are replaced by `fill_value` (NaN by default for jnp.take / take_along_axis):
+                # affine unless no slice is out of bounds.  The offset is the gather of zeros with the actual indices.
+                if isinstance(vals[1], _Const):
+                    with jax.ensure_compile_time_eval():
+                        off = eqn.primitive.bind(jnp.zeros(eqn.invars[0].aval.shape, eqn.invars[0].aval.dtype), vals[1].val, **eqn.params)
+                    # the indices are baked into this instance (it is linear in the operand for *these* indices only)
+                    baked = {1: vals[1].val}
+                    ppos, dpos = [], [0]
+                    pname = "gather[fill]"
+                    if not _is_zero(off):
+                        extra = [_Const(off)]
+            inst = {"prim": eqn.primitive, "fn": None, "name": pname, "params": dict(eqn.params), "static": str(eqn.params)[:2000], "cls": cls,
+                    "ppos": list(ppos), "dpos": list(dpos), "avals": [aval_of(v) for v in eqn.invars],
+                    "pvals": {i: vals[i].val for i in ppos if isinstance(vals[i], _Const)}, "nout": len(eqn.outvars),
+                    "offset": bool(extra), "baked": baked}
+            if record is not None:
+                record.append(inst)
+            pids = [vid(vals[i]) for i in ppos]
+            dids = [vid(vals[i]) for i in dpos] + [vid(a) for a in extra]
             if len(eqn.outvars) == 1:
-                env[eqn.outvars[0]] = _Dep(prog.emit(cls, pname, pids, dids))
+                env[eqn.outvars[0]] = _Dep(emit(cls, pname, pids, dids, inst, 0))
             else:
                 for k, v in enumerate(eqn.outvars):
-                    env[v] = _Dep(prog.emit(cls, f"{pname}#{k}", pids, dids))
+                    env[v] = _Dep(emit(cls, f"{pname}#{k}", pids, dids, inst, k))
         return [read(v) for v in jaxpr.outvars]
 
     ins = [_Dep(i) for i in range(prog.nin)]
